@@ -38,7 +38,7 @@ def units(tier, seed):
         us.append(('textargs', i))
     us.append(('substr', 0))
     us.append(('substr', 1))
-    for i in range(32 if tier == 'quick' else 320):
+    for i in range(32 if tier == 'quick' else 960):
         us.append(('programs', i))
     return us
 
